@@ -205,7 +205,7 @@ func c14OneNode(t *rapid.T, st *Store, ls *ipld.LinkSystem, ev *Evid) *c14Kept {
 				case 2:
 					u.Fanout = nil
 				case 3:
-					u.HashType = u64p(rapid.SampledFrom([]uint64{0, 0x12, 0x23}).Draw(t, "badht"))
+					u.HashType = u64p(rapid.SampledFrom([]uint64{0, 0x12, 0x23, 0x1022, 1<<32 | 0x22, 1<<40 | 0x22, 1<<63 | 0x22}).Draw(t, "badht"))
 				case 4:
 					u.HashType = nil
 				default:
